@@ -519,7 +519,7 @@ where
         // This ensures that if a set is followed by a delete, it will be
         // applied in the correct order.
         self.insert_buf_tx
-            .try_send(Item::delete(index, conflict))
+            .send(Item::delete(index, conflict))
             .map_err(|e| {
                 CacheError::ChannelError(format!(
                     "failed to send message to the insert buffer: {}",
